@@ -210,7 +210,7 @@ def parse_strings(out, marker):
 def eval_shards(ctx, name, marker, imports, terms, strings=False):
     if not terms:
         return [], None
-    per = max(1, (len(terms) + 15) // 16)
+    per = min(400, max(1, (len(terms) + 15) // 16))      # small shards: bounded memory per coqc, 16 at a time
     shards = []
     for i in range(0, len(terms), per):
         body = ["From Coq Require Import String List ZArith NArith.", imports, "Import ListNotations.", "Open Scope Z_scope.",
@@ -286,7 +286,7 @@ def main(ctx, replay):
     cases = []
     sets = [(n, vs, "compile") for n, vs in fixed_sets()] + [(n, vs, "struct") for n, vs in fixed_sets()[:6]] \
         + [(n, vs, "struct") for n, vs in struct_only_sets()]
-    n_rand = 10 if ctx.tier == "quick" else 150
+    n_rand = 10 if ctx.tier == "quick" else 500
     for k in range(n_rand):
         n, vs = random_set(rng)
         sets.append((n, vs, "compile" if k % 2 == 0 else "struct"))
@@ -569,7 +569,7 @@ def inbound(ctx, info, rng, nontrivial, samples, model_err, dist):
         ("zones", [IV("S1", "in-alpha", s, s + h, off=330), IV("S2", "in-beta", s + h, None, off=-60)], ["in-inline"]),
         ("equal-from", [IV("Sb", "in-beta", s, s + h), IV("Sa", "in-alpha", s, s + 2 * h)], []),
     ]
-    n_rand = 6 if ctx.tier == "quick" else 80
+    n_rand = 6 if ctx.tier == "quick" else 300
     for k in range(n_rand):
         n = rng.randrange(1, 6)
         vs = []
